@@ -646,3 +646,339 @@ theorem mem_freeVarsDefs : ∀ (ds : Defs) (c j : Nat),
       simp only [freeVarsDefs, freeAtDefs, List.mem_append, Bool.or_eq_true, mem_freeVars a c j,
         mem_freeVars d c j, mem_freeVarsDefs r c j]
 end
+-- lifting commutes with lifting at a lower cutoff
+mutual
+theorem ushift_comm : ∀ (t : Tm) (c d a b : Nat), c ≤ d →
+    ushift c a (ushift d b t) = ushift (d + a) b (ushift c a t)
+  | .var x i, c, d, a, b, h => by
+      simp only [ushift]
+      by_cases h1 : i ≥ d
+      · have h2 : i ≥ c := by omega
+        have h3 : i + b ≥ c := by omega
+        have h4 : i + a ≥ d + a := by omega
+        simp only [h1, h2, if_true, ushift, h3, h4]
+        congr 1; omega
+      · by_cases h2 : i ≥ c
+        · have h4 : ¬ (i + a ≥ d + a) := by omega
+          simp only [h1, h2, if_true, if_false, ushift, h4]
+        · have h4 : ¬ (i ≥ d + a) := by omega
+          simp only [h1, h2, if_false, ushift, h4]
+  | .hole id i, c, d, a, b, h => by
+      simp only [ushift]
+      by_cases h1 : i ≥ d
+      · have h2 : i ≥ c := by omega
+        have h3 : i + b ≥ c := by omega
+        have h4 : i + a ≥ d + a := by omega
+        simp only [h1, h2, if_true, ushift, h3, h4]
+        congr 1; omega
+      · by_cases h2 : i ≥ c
+        · have h4 : ¬ (i + a ≥ d + a) := by omega
+          simp only [h1, h2, if_true, if_false, ushift, h4]
+        · have h4 : ¬ (i ≥ d + a) := by omega
+          simp only [h1, h2, if_false, ushift, h4]
+  | .lam x im t e, c, d, a, b, h => by
+      have e1 : d + a + 1 = d + 1 + a := by omega
+      simp only [ushift, ushift_comm t c d a b h, ushift_comm e (c+1) (d+1) a b (by omega), e1]
+  | .pi x im t e, c, d, a, b, h => by
+      have e1 : d + a + 1 = d + 1 + a := by omega
+      simp only [ushift, ushift_comm t c d a b h, ushift_comm e (c+1) (d+1) a b (by omega), e1]
+  | .app f g, c, d, a, b, h => by
+      simp only [ushift, ushift_comm f c d a b h, ushift_comm g c d a b h]
+  | .letg ds e, c, d, a, b, h => by
+      have e1 : d + a + ds.len = d + ds.len + a := by omega
+      simp only [ushift, ushiftDefs_len,
+        ushiftDefs_comm ds (c + ds.len) (d + ds.len) a b (by omega),
+        ushift_comm e (c + ds.len) (d + ds.len) a b (by omega), e1]
+  | .neg t, c, d, a, b, h => by simp only [ushift, ushift_comm t c d a b h]
+  | .bin op t u, c, d, a, b, h => by
+      simp only [ushift, ushift_comm t c d a b h, ushift_comm u c d a b h]
+  | .ite t u v, c, d, a, b, h => by
+      simp only [ushift, ushift_comm t c d a b h, ushift_comm u c d a b h, ushift_comm v c d a b h]
+  | .type, _, _, _, _, _ | .int, _, _, _, _, _ | .bool, _, _, _, _, _ | .tt, _, _, _, _, _
+  | .ff, _, _, _, _, _ | .lit _, _, _, _, _, _ => by simp only [ushift]
+theorem ushiftDefs_comm : ∀ (ds : Defs) (c d a b : Nat), c ≤ d →
+    ushiftDefs c a (ushiftDefs d b ds) = ushiftDefs (d + a) b (ushiftDefs c a ds)
+  | .nil, _, _, _, _, _ => by simp only [ushiftDefs]
+  | .cons x t u r, c, d, a, b, h => by
+      simp only [ushiftDefs, ushift_comm t c d a b h, ushift_comm u c d a b h,
+        ushiftDefs_comm r c d a b h]
+end
+
+-- two lifts whose ranges touch merge
+mutual
+theorem ushift_ushift_mid : ∀ (t : Tm) (c d a b : Nat), d ≤ c → c ≤ d + b →
+    ushift c a (ushift d b t) = ushift d (a + b) t
+  | .var x i, c, d, a, b, h, h' => by
+      simp only [ushift]
+      by_cases h1 : i ≥ d
+      · have h3 : i + b ≥ c := by omega
+        simp only [h1, if_true, ushift, h3]
+        congr 1; omega
+      · have h3 : ¬ (i ≥ c) := by omega
+        simp only [h1, if_false, ushift, h3]
+  | .hole id i, c, d, a, b, h, h' => by
+      simp only [ushift]
+      by_cases h1 : i ≥ d
+      · have h3 : i + b ≥ c := by omega
+        simp only [h1, if_true, ushift, h3]
+        congr 1; omega
+      · have h3 : ¬ (i ≥ c) := by omega
+        simp only [h1, if_false, ushift, h3]
+  | .lam x im t e, c, d, a, b, h, h' => by
+      simp only [ushift, ushift_ushift_mid t c d a b h h',
+        ushift_ushift_mid e (c+1) (d+1) a b (by omega) (by omega)]
+  | .pi x im t e, c, d, a, b, h, h' => by
+      simp only [ushift, ushift_ushift_mid t c d a b h h',
+        ushift_ushift_mid e (c+1) (d+1) a b (by omega) (by omega)]
+  | .app f g, c, d, a, b, h, h' => by
+      simp only [ushift, ushift_ushift_mid f c d a b h h', ushift_ushift_mid g c d a b h h']
+  | .letg ds e, c, d, a, b, h, h' => by
+      simp only [ushift, ushiftDefs_len,
+        ushiftDefs_ushiftDefs_mid ds (c + ds.len) (d + ds.len) a b (by omega) (by omega),
+        ushift_ushift_mid e (c + ds.len) (d + ds.len) a b (by omega) (by omega)]
+  | .neg t, c, d, a, b, h, h' => by simp only [ushift, ushift_ushift_mid t c d a b h h']
+  | .bin op t u, c, d, a, b, h, h' => by
+      simp only [ushift, ushift_ushift_mid t c d a b h h', ushift_ushift_mid u c d a b h h']
+  | .ite t u v, c, d, a, b, h, h' => by
+      simp only [ushift, ushift_ushift_mid t c d a b h h', ushift_ushift_mid u c d a b h h',
+        ushift_ushift_mid v c d a b h h']
+  | .type, _, _, _, _, _, _ | .int, _, _, _, _, _, _ | .bool, _, _, _, _, _, _
+  | .tt, _, _, _, _, _, _ | .ff, _, _, _, _, _, _ | .lit _, _, _, _, _, _, _ => by
+      simp only [ushift]
+theorem ushiftDefs_ushiftDefs_mid : ∀ (ds : Defs) (c d a b : Nat), d ≤ c → c ≤ d + b →
+    ushiftDefs c a (ushiftDefs d b ds) = ushiftDefs d (a + b) ds
+  | .nil, _, _, _, _, _, _ => by simp only [ushiftDefs]
+  | .cons x t u r, c, d, a, b, h, h' => by
+      simp only [ushiftDefs, ushift_ushift_mid t c d a b h h', ushift_ushift_mid u c d a b h h',
+        ushiftDefs_ushiftDefs_mid r c d a b h h']
+end
+-- lifting below the opened index commutes with opening
+mutual
+theorem open_ushift_low : ∀ (t : Tm) (u : Tm) (i c a s : Nat), c ≤ i → c ≤ s →
+    ushift c a (openT t i u s) = openT (ushift c a t) (i + a) u (s + a)
+  | .var x k, u, i, c, a, s, h, h' => by
+      simp only [openT, ushift]
+      by_cases h1 : k = i
+      · subst h1
+        have h2 : k ≥ c := h
+        simp only [if_true, h2, openT]
+        rw [ushift_ushift_mid u c 0 a s (by omega) (by omega), Nat.add_comm a s]
+      · by_cases h2 : k > i
+        · have h3 : k ≥ c := by omega
+          have h4 : k + a ≠ i + a := by omega
+          have h5 : k + a > i + a := by omega
+          have h6 : k - 1 ≥ c := by omega
+          simp only [h1, h2, h3, h4, h5, h6, if_true, if_false, openT, ushift]
+          congr 1; omega
+        · by_cases h3 : k ≥ c
+          · have h4 : k + a ≠ i + a := by omega
+            have h5 : ¬ (k + a > i + a) := by omega
+            simp only [h1, h2, h3, h4, h5, if_true, if_false, openT, ushift]
+          · have h4 : k ≠ i + a := by omega
+            have h5 : ¬ (k > i + a) := by omega
+            simp only [h1, h2, h3, h4, h5, if_false, openT, ushift]
+  | .hole id k, u, i, c, a, s, h, h' => by
+      simp only [openT, ushift]
+      by_cases h2 : k > i
+      · have h3 : k ≥ c := by omega
+        have h5 : k + a > i + a := by omega
+        have h6 : k - 1 ≥ c := by omega
+        simp only [h2, h3, h5, h6, if_true, openT, ushift]
+        congr 1; omega
+      · by_cases h3 : k ≥ c
+        · have h5 : ¬ (k + a > i + a) := by omega
+          simp only [h2, h3, h5, if_true, if_false, openT, ushift]
+        · have h5 : ¬ (k > i + a) := by omega
+          simp only [h2, h3, h5, if_false, openT, ushift]
+  | .lam x im d b, u, i, c, a, s, h, h' => by
+      have e1 : i + a + 1 = i + 1 + a := by omega
+      have e2 : s + a + 1 = s + 1 + a := by omega
+      simp only [openT, ushift, open_ushift_low d u i c a s h h',
+        open_ushift_low b u (i+1) (c+1) a (s+1) (by omega) (by omega), e1, e2]
+  | .pi x im d b, u, i, c, a, s, h, h' => by
+      have e1 : i + a + 1 = i + 1 + a := by omega
+      have e2 : s + a + 1 = s + 1 + a := by omega
+      simp only [openT, ushift, open_ushift_low d u i c a s h h',
+        open_ushift_low b u (i+1) (c+1) a (s+1) (by omega) (by omega), e1, e2]
+  | .app f g, u, i, c, a, s, h, h' => by
+      simp only [openT, ushift, open_ushift_low f u i c a s h h', open_ushift_low g u i c a s h h']
+  | .letg ds b, u, i, c, a, s, h, h' => by
+      have e1 : i + a + ds.len = i + ds.len + a := by omega
+      have e2 : s + a + ds.len = s + ds.len + a := by omega
+      simp only [openT, ushift, openDefs_len, ushiftDefs_len,
+        openDefs_ushiftDefs_low ds u (i + ds.len) (c + ds.len) a (s + ds.len) (by omega) (by omega),
+        open_ushift_low b u (i + ds.len) (c + ds.len) a (s + ds.len) (by omega) (by omega), e1, e2]
+  | .neg t, u, i, c, a, s, h, h' => by simp only [openT, ushift, open_ushift_low t u i c a s h h']
+  | .bin op t v, u, i, c, a, s, h, h' => by
+      simp only [openT, ushift, open_ushift_low t u i c a s h h', open_ushift_low v u i c a s h h']
+  | .ite t v w, u, i, c, a, s, h, h' => by
+      simp only [openT, ushift, open_ushift_low t u i c a s h h', open_ushift_low v u i c a s h h',
+        open_ushift_low w u i c a s h h']
+  | .type, _, _, _, _, _, _, _ | .int, _, _, _, _, _, _, _ | .bool, _, _, _, _, _, _, _
+  | .tt, _, _, _, _, _, _, _ | .ff, _, _, _, _, _, _, _ | .lit _, _, _, _, _, _, _, _ => by
+      simp only [openT, ushift]
+theorem openDefs_ushiftDefs_low : ∀ (ds : Defs) (u : Tm) (i c a s : Nat), c ≤ i → c ≤ s →
+    ushiftDefs c a (openDefs ds i u s) = openDefs (ushiftDefs c a ds) (i + a) u (s + a)
+  | .nil, _, _, _, _, _, _, _ => by simp only [openDefs, ushiftDefs]
+  | .cons x t v r, u, i, c, a, s, h, h' => by
+      simp only [openDefs, ushiftDefs, open_ushift_low t u i c a s h h',
+        open_ushift_low v u i c a s h h', openDefs_ushiftDefs_low r u i c a s h h']
+end
+
+-- lifting above the opened index commutes with opening (hole-free `t`)
+mutual
+theorem open_ushift_high : ∀ (t : Tm) (u : Tm) (i c a s : Nat), t.holeFree = true → i ≤ c →
+    ushift c a (openT t i u s) = openT (ushift (c + 1) a t) i (ushift (c - s) a u) s
+  | .var x k, u, i, c, a, s, _, h => by
+      simp only [openT, ushift]
+      by_cases h1 : k = i
+      · subst h1
+        have h2 : ¬ (k ≥ c + 1) := by omega
+        simp only [if_true, h2, if_false, openT]
+        by_cases hs : s ≤ c
+        · have := ushift_comm u 0 (c - s) s a (by omega)
+          rw [this, show c - s + s = c by omega]
+        · rw [show c - s = 0 by omega, ushift_ushift, ushift_ushift_mid u c 0 a s (by omega) (by omega),
+            Nat.add_comm]
+      · by_cases h2 : k > i
+        · by_cases h3 : k ≥ c + 1
+          · have h4 : k + a ≠ i := by omega
+            have h5 : k + a > i := by omega
+            have h6 : k - 1 ≥ c := by omega
+            simp only [h1, h2, h3, h4, h5, h6, if_true, if_false, openT, ushift]
+            congr 1; omega
+          · have h6 : ¬ (k - 1 ≥ c) := by omega
+            simp only [h1, h2, h3, h6, if_true, if_false, openT, ushift]
+        · have h3 : ¬ (k ≥ c + 1) := by omega
+          have h6 : ¬ (k ≥ c) := by omega
+          simp only [h1, h2, h3, h6, if_false, openT, ushift]
+  | .hole id k, u, i, c, a, s, hf, h => by simp [Tm.holeFree] at hf
+  | .lam x im d b, u, i, c, a, s, hf, h => by
+      simp only [Tm.holeFree, Bool.and_eq_true] at hf
+      have e1 : c + 1 - (s + 1) = c - s := by omega
+      simp only [openT, ushift, open_ushift_high d u i c a s hf.1 h,
+        open_ushift_high b u (i+1) (c+1) a (s+1) hf.2 (by omega), e1]
+  | .pi x im d b, u, i, c, a, s, hf, h => by
+      simp only [Tm.holeFree, Bool.and_eq_true] at hf
+      have e1 : c + 1 - (s + 1) = c - s := by omega
+      simp only [openT, ushift, open_ushift_high d u i c a s hf.1 h,
+        open_ushift_high b u (i+1) (c+1) a (s+1) hf.2 (by omega), e1]
+  | .app f g, u, i, c, a, s, hf, h => by
+      simp only [Tm.holeFree, Bool.and_eq_true] at hf
+      simp only [openT, ushift, open_ushift_high f u i c a s hf.1 h,
+        open_ushift_high g u i c a s hf.2 h]
+  | .letg ds b, u, i, c, a, s, hf, h => by
+      simp only [Tm.holeFree, Bool.and_eq_true] at hf
+      have e1 : c + ds.len - (s + ds.len) = c - s := by omega
+      have e2 : c + 1 + ds.len = c + ds.len + 1 := by omega
+      simp only [openT, ushift, openDefs_len, ushiftDefs_len, e2,
+        openDefs_ushiftDefs_high ds u (i + ds.len) (c + ds.len) a (s + ds.len) hf.1 (by omega),
+        open_ushift_high b u (i + ds.len) (c + ds.len) a (s + ds.len) hf.2 (by omega), e1]
+  | .neg t, u, i, c, a, s, hf, h => by
+      simp only [Tm.holeFree] at hf
+      simp only [openT, ushift, open_ushift_high t u i c a s hf h]
+  | .bin op t v, u, i, c, a, s, hf, h => by
+      simp only [Tm.holeFree, Bool.and_eq_true] at hf
+      simp only [openT, ushift, open_ushift_high t u i c a s hf.1 h,
+        open_ushift_high v u i c a s hf.2 h]
+  | .ite t v w, u, i, c, a, s, hf, h => by
+      simp only [Tm.holeFree, Bool.and_eq_true] at hf
+      simp only [openT, ushift, open_ushift_high t u i c a s hf.1.1 h,
+        open_ushift_high v u i c a s hf.1.2 h, open_ushift_high w u i c a s hf.2 h]
+  | .type, _, _, _, _, _, _, _ | .int, _, _, _, _, _, _, _ | .bool, _, _, _, _, _, _, _
+  | .tt, _, _, _, _, _, _, _ | .ff, _, _, _, _, _, _, _ | .lit _, _, _, _, _, _, _, _ => by
+      simp only [openT, ushift]
+theorem openDefs_ushiftDefs_high : ∀ (ds : Defs) (u : Tm) (i c a s : Nat), ds.holeFree = true →
+    i ≤ c →
+    ushiftDefs c a (openDefs ds i u s) = openDefs (ushiftDefs (c + 1) a ds) i (ushift (c - s) a u) s
+  | .nil, _, _, _, _, _, _, _ => by simp only [openDefs, ushiftDefs]
+  | .cons x t v r, u, i, c, a, s, hf, h => by
+      simp only [Defs.holeFree, Bool.and_eq_true] at hf
+      simp only [openDefs, ushiftDefs, open_ushift_high t u i c a s hf.1.1 h,
+        open_ushift_high v u i c a s hf.1.2 h, openDefs_ushiftDefs_high r u i c a s hf.2 h]
+end
+-- the substitution lemma, generalised over the binder depth `n`
+mutual
+theorem open_open_gen : ∀ (t u v : Tm) (i j n : Nat), i ≤ j →
+    openT (openT t (i + n) u n) (j + n) v n =
+      openT (openT t (j + n + 1) (ushift i 1 v) n) (i + n) (openT u j v 0) n
+  | .var x k, u, v, i, j, n, h => by
+      by_cases h1 : k = i + n
+      · subst h1
+        have h2 : i + n ≠ j + n + 1 := by omega
+        have h3 : ¬ (i + n > j + n + 1) := by omega
+        simp only [openT, if_true, h2, h3, if_false]
+        have := open_ushift_low u v j 0 n 0 (Nat.zero_le _) (Nat.zero_le _)
+        rw [Nat.zero_add] at this
+        exact this.symm
+      · by_cases h2 : k = j + n + 1
+        · subst h2
+          have h3 : j + n + 1 > i + n := by omega
+          have h4 : j + n + 1 - 1 = j + n := by omega
+          simp only [openT, h1, h3, h4, if_true, if_false]
+          rw [ushift_comm v 0 i n 1 (Nat.zero_le _), open_ushift_cancel]
+        · by_cases h3 : k > j + n + 1
+          · have h4 : k > i + n := by omega
+            have h5 : k - 1 ≠ j + n := by omega
+            have h6 : k - 1 > j + n := by omega
+            have h7 : k - 1 ≠ i + n := by omega
+            have h8 : k - 1 > i + n := by omega
+            simp only [openT, h1, h2, h3, h4, h5, h6, h7, h8, if_true, if_false]
+          · by_cases h4 : k > i + n
+            · have h5 : k - 1 ≠ j + n := by omega
+              have h6 : ¬ (k - 1 > j + n) := by omega
+              simp only [openT, h1, h2, h3, h4, h5, h6, if_true, if_false]
+            · have h5 : k ≠ j + n := by omega
+              have h6 : ¬ (k > j + n) := by omega
+              simp only [openT, h1, h2, h3, h4, h5, h6, if_false]
+  | .hole id k, u, v, i, j, n, h => by
+      by_cases h3 : k > j + n + 1
+      · have h4 : k > i + n := by omega
+        have h6 : k - 1 > j + n := by omega
+        have h8 : k - 1 > i + n := by omega
+        simp only [openT, h3, h4, h6, h8, if_true]
+      · by_cases h4 : k > i + n
+        · have h6 : ¬ (k - 1 > j + n) := by omega
+          simp only [openT, h3, h4, h6, if_true, if_false]
+        · have h6 : ¬ (k > j + n) := by omega
+          simp only [openT, h3, h4, h6, if_false]
+  | .lam x im d b, u, v, i, j, n, h => by
+      have e1 : i + n + 1 = i + (n + 1) := by omega
+      have e2 : j + n + 1 = j + (n + 1) := by omega
+      simp only [openT, open_open_gen d u v i j n h]
+      rw [e1, e2, open_open_gen b u v i j (n+1) h]
+  | .pi x im d b, u, v, i, j, n, h => by
+      have e1 : i + n + 1 = i + (n + 1) := by omega
+      have e2 : j + n + 1 = j + (n + 1) := by omega
+      simp only [openT, open_open_gen d u v i j n h]
+      rw [e1, e2, open_open_gen b u v i j (n+1) h]
+  | .app f g, u, v, i, j, n, h => by
+      simp only [openT, open_open_gen f u v i j n h, open_open_gen g u v i j n h]
+  | .letg ds b, u, v, i, j, n, h => by
+      have e1 : i + n + ds.len = i + (n + ds.len) := by omega
+      have e2 : j + n + ds.len = j + (n + ds.len) := by omega
+      have e3 : j + n + 1 + ds.len = j + (n + ds.len) + 1 := by omega
+      simp only [openT, openDefs_len]
+      rw [e1, e2, e3, openDefs_openDefs_gen ds u v i j (n + ds.len) h,
+        open_open_gen b u v i j (n + ds.len) h]
+  | .neg t, u, v, i, j, n, h => by simp only [openT, open_open_gen t u v i j n h]
+  | .bin op t w, u, v, i, j, n, h => by
+      simp only [openT, open_open_gen t u v i j n h, open_open_gen w u v i j n h]
+  | .ite t w z, u, v, i, j, n, h => by
+      simp only [openT, open_open_gen t u v i j n h, open_open_gen w u v i j n h,
+        open_open_gen z u v i j n h]
+  | .type, _, _, _, _, _, _ | .int, _, _, _, _, _, _ | .bool, _, _, _, _, _, _
+  | .tt, _, _, _, _, _, _ | .ff, _, _, _, _, _, _ | .lit _, _, _, _, _, _, _ => by
+      simp only [openT]
+theorem openDefs_openDefs_gen : ∀ (ds : Defs) (u v : Tm) (i j n : Nat), i ≤ j →
+    openDefs (openDefs ds (i + n) u n) (j + n) v n =
+      openDefs (openDefs ds (j + n + 1) (ushift i 1 v) n) (i + n) (openT u j v 0) n
+  | .nil, _, _, _, _, _, _ => by simp only [openDefs]
+  | .cons x t w r, u, v, i, j, n, h => by
+      simp only [openDefs, open_open_gen t u v i j n h, open_open_gen w u v i j n h,
+        openDefs_openDefs_gen r u v i j n h]
+end
+
+theorem open_open (t u v : Tm) (i j : Nat) (h : i ≤ j) :
+    openT (openT t i u 0) j v 0 = openT (openT t (j + 1) (ushift i 1 v) 0) i (openT u j v 0) 0 :=
+  open_open_gen t u v i j 0 h
